@@ -469,14 +469,13 @@ class Forward:
             self.st.locals[s.name] = Poly.atom(s.name)
 
     def _bind_loop_target(self, target, it: Poly):
+        from .dataflow import target_path, item_atom
         if isinstance(target, ast.Name):
             self.st.locals[target.id] = Poly.atom(f"item∈{it.key()}")
         elif isinstance(target, (ast.Tuple, ast.List)):
-            for i, e in enumerate(target.elts):
-                if isinstance(e, ast.Name):
-                    self.st.locals[e.id] = Poly.atom(f"item#{i}∈unpack({it.key()})")
-                else:
-                    self._bind_loop_target(e, it)
+            for x in ast.walk(target):
+                if isinstance(x, ast.Name):
+                    self.st.locals[x.id] = Poly.atom(item_atom(it.key(), target_path(target, x.id)))
 
 
 def attribute_summary(an: Analysis, ctor: FuncInfo) -> Dict[str, Poly]:
